@@ -11,6 +11,7 @@
 package main
 
 import (
+	"syscall"
 	"bufio"
 	"bytes"
 	"context"
@@ -754,6 +755,46 @@ type line struct {
 	Adm   string `json:"adm,omitempty"` // envelope-acceptor request for the Lean driver
 }
 
+// stallWatch decides that a case hangs without depending on how busy the machine is: a case is an endless loop
+// (or super-polynomial work) when THIS PROCESS has burnt more than perCase of CPU time on it, and a deadlock when the
+// process made no CPU progress at all for 25 s of wall time while the case was still running (a runnable process
+// gets some CPU within 25 s under any load the checks are run at; a blocked one gets none). A wall-clock cap of
+// 15 x perCase remains as a last resort.
+type stallWatch struct {
+	idx      int
+	cpu0     time.Duration // process CPU time when the current case was first seen
+	lastCPU  time.Duration
+	lastMove time.Time
+}
+
+func processCPU() time.Duration {
+	var ru syscall.Rusage
+	if syscall.Getrusage(syscall.RUSAGE_SELF, &ru) != nil {
+		return 0
+	}
+	return time.Duration(ru.Utime.Nano() + ru.Stime.Nano())
+}
+
+func (w *stallWatch) check(idx int, started time.Time, perCase time.Duration) string {
+	cpu := processCPU()
+	if idx != w.idx || w.lastMove.IsZero() {
+		w.idx, w.cpu0, w.lastCPU, w.lastMove = idx, cpu, cpu, time.Now()
+		return ""
+	}
+	if cpu-w.lastCPU > 20*time.Millisecond {
+		w.lastCPU, w.lastMove = cpu, time.Now()
+	}
+	switch {
+	case cpu-w.cpu0 > perCase:
+		return fmt.Sprintf("no result after %s of CPU time (endless loop or super-polynomial work)", perCase)
+	case time.Since(w.lastMove) > 25*time.Second:
+		return "no result and no CPU progress for 25 s (blocked forever)"
+	case time.Since(started) > 15*perCase:
+		return fmt.Sprintf("no result within %s", 15*perCase)
+	}
+	return ""
+}
+
 func worker(seed int64, from, to int, perCase time.Duration) {
 	debug.SetMaxStack(64 << 20)
 	setup()
@@ -763,6 +804,7 @@ func worker(seed int64, from, to int, perCase time.Duration) {
 	started := time.Now()
 	go func() { // watchdog: stall or memory blow-up
 		var ms runtime.MemStats
+		var sw stallWatch
 		for {
 			time.Sleep(250 * time.Millisecond)
 			mu.Lock()
@@ -772,9 +814,8 @@ func worker(seed int64, from, to int, perCase time.Duration) {
 				continue
 			}
 			runtime.ReadMemStats(&ms)
-			why := ""
-			if time.Since(t0) > perCase {
-				why = fmt.Sprintf("no result within %s (endless loop or super-polynomial work)", perCase)
+			why := sw.check(i, t0, perCase)
+			if why != "" {
 			} else if ms.HeapAlloc > 6<<30 {
 				why = "heap grew beyond 6 GiB"
 			}
@@ -1082,10 +1123,19 @@ func init() {
 			done := make(chan string, 1)
 			go func() { done <- runCase(c) }()
 			var fail string
-			select {
-			case fail = <-done:
-			case <-time.After(40 * time.Second):
-				fail = "hang: no result within 40s"
+			var sw stallWatch
+			t0 := time.Now()
+		wait:
+			for {
+				select {
+				case fail = <-done:
+					break wait
+				case <-time.After(250 * time.Millisecond):
+					if why := sw.check(c.Idx, t0, 40*time.Second); why != "" {
+						fail = "hang: " + why
+						break wait
+					}
+				}
 			}
 			b, _ := json.Marshal(line{Idx: c.Idx, Fail: fail})
 			fmt.Println(string(b))
